@@ -3,7 +3,7 @@ from __future__ import annotations
 
 from typing import Callable, List
 
-from .interp import Interp, Outcome, explore
+from .interp import Interp, Outcome, SetupVerdict, explore
 from .loader import FuncInfo, Program
 from .models2 import FullModels
 from .poly import RF
@@ -78,7 +78,13 @@ def run_case(prog: Program, fi: FuncInfo, setup: Callable, *, inline_ctor=False,
                             cache_hits=cache_hits)
         interp = Interp(prog, st, models, max_depth=max_depth)
         ctx = Ctx(st, models)
-        args, kwargs = setup(ctx)
+        try:
+            args, kwargs = setup(ctx)
+        except SetupVerdict as sv:
+            out = Outcome("setup-verdict", state=st)
+            out.verdict = (sv.sig, sv.detail)
+            out.args, out.kwargs, out.ctx = [], {}, ctx
+            return out
         target = dynamic_method(prog, st, fi, args)
         try:
             v = interp.call_function(target, args, kwargs)
@@ -107,6 +113,9 @@ def run_body(prog: Program, body: Callable, *, inline_ctor=False, inline_rate_ct
             out = Outcome("return", value=v, state=st)
         except AbsRaise as ar:
             out = Outcome("raise", exc=ar.exc, state=st)
+        except SetupVerdict as sv:
+            out = Outcome("setup-verdict", state=st)
+            out.verdict = (sv.sig, sv.detail)
         finally:
             interp.frames.pop()
         out.args = []
